@@ -74,6 +74,19 @@ fn main() {
     });
     let mut sink = sink;
     sink.merge(grid);
+    // records that look like SSLv2-compatible hellos / other protocols are records like any other for the envelope parsers
+    let foreign = vcommon::catalogue::foreign_protocols();
+    let sf = par_run(run.threads, foreign.len(), |i, sink| {
+        let b = &foreign[i];
+        let len = ((b[3] as usize) << 8) | b[4] as usize;
+        if len <= 16640 && b.len() >= 5 + len {
+            for t in [&RAW_RECORD, &ENCRYPTED] {
+                let (g, _) = check_case(run.prop, t, b, sink);
+                sink.count("foreign-protocol shaped records", if g.is_ok() { "accepted" } else { "REJECTED" });
+            }
+        }
+    });
+    sink.merge(sf);
     let mut cov = Map::new();
     cov.insert("exhaustive".into(), json!(true));
     cov.insert("fields".into(), json!(fs.iter().filter(|f| f.bits > 0).map(|f| json!({"field": f.name, "values": 1u32 << f.bits, "entry_points": f.targets.iter().map(|t| t.name).collect::<Vec<_>>()})).collect::<Vec<_>>()));
